@@ -584,6 +584,7 @@ def pick_rational(rng, n, exclude=()):
             c["pb"] = round(rng.uniform(0.80, 0.95), 4)
             if ir > orr and rng.below(2):
                 c["sb"] = round(rng.uniform(1.0, 1.08), 4)
+                c["pb"] = min(c["pb"], round(2 - c["sb"] - 0.003, 4))     # pass-band below the admitted aliasing (see apply_knob)
         elif u == 2:
             c["qflags"] = qf | 16                  # SOXR_DOUBLE_PRECISION: cr64 engines at low precision
         lab = cfg_label(c)
@@ -857,6 +858,7 @@ def finding_flags(info):
         "F-SG1": rolloff_of(info) == 0 and any(k.startswith("poly") for k in kinds),
         "F-SG2": q["sb"] > 1 and bool(_RX_15_2.match(plan_class(info))),
         "F-SG3": info.get("engine", "") in ("cr32", "cr32s") and bits_of(info) > 19 and up and q["sb"] < 1,
+        "F-SG5": bits_of(info) == 16 and rolloff_of(info) == 1 and "poly1" in kinds,
     }
 
 
@@ -866,6 +868,7 @@ FINDING_SYMPTOM = {
     "F-SG1": {"gain": 2.0},                                              # |gain error| in (0.01, 0.02] dB
     "F-SG2": {"res": None, "img": None},                                 # absolute level <= SG2_LEVEL and at most SG2_RATIO x the bound
     "F-SG3": {"stop": 1.13},                                             # at most 1 dB above 2^-bits
+    "F-SG5": {"res": 1.5},                                               # fit residual <= 1.5 x 2^(1-bits)
 }
 SG2_LEVEL = 2.0 ** -13                                                   # absolute residual / image level of F-SG2 (mapped: <= 1.0e-4 at 15 bits)
 SG2_RATIO = 1500.0                                                       # ... and relative to 2^(1-bits) (mapped: 1019 at 33 bits, stopband_begin 1.2)
